@@ -8,6 +8,8 @@
 //! plemma: C13 lemma_collection_length_roundtrip: every u64 length written is read back, consuming exactly what was written
 //! plemma: C13 lemma_ping_roundtrip: a ping that fits a Lightning message (byteslen < 0xffff) is read back with both fields, the padding skipped
 //! plemma: C13 lemma_pong_roundtrip: likewise for pong
+//! plemma: C13 lemma_witnesses_roundtrip: a list of at most 65535 witnesses of at most 65535 bytes each (tx_signatures) is read back as written, consuming exactly what was written
+//! trusted: Witness is held as its consensus encoding; bitcoin's consensus decoder of a Witness is uninterpreted with two assumed facts of the bitcoin crate: it consumes exactly size() bytes, and it decodes an encoding back to the witness
 //! plemma: C13 lemma_error_roundtrip: an error / warning message whose text fits the u16 length is read back with its channel id and text
 use vstd::prelude::*;
 verus! {
@@ -371,6 +373,130 @@ pub proof fn lemma_error_roundtrip(channel_id: ChannelId, text: Seq<u8>, rest: S
     lemma_slice_of_concat(channel_id.0@ + be16(n), text, rest);
     assert(arr32(channel_id.0@)@ == channel_id.0@);
     assert(arr32(channel_id.0@) == channel_id.0) by { assert(arr32(channel_id.0@)@ =~= channel_id.0@); }
+}
+
+// ---- Vec<Witness> (the `witnesses` of tx_signatures): u16 count, then per witness its u16 size and its consensus encoding ----
+// a bitcoin Witness is held as its consensus encoding; bitcoin's decoder is uninterpreted, with the two facts of the bitcoin crate this codec relies on (trusted)
+pub struct Witness { pub enc: Ghost<Seq<u8>> }
+impl Witness { #[verifier::external_body] pub fn size(&self) -> (r: usize) ensures r == self.enc@.len() { unimplemented!() } }
+pub uninterp spec fn dec_w(d: Seq<u8>, p: int) -> Option<(Witness, int)>;
+#[verifier::external_body] pub broadcast proof fn ax_dec_w_consumes_its_size(d: Seq<u8>, p: int)
+    ensures (#[trigger] dec_w(d, p)) is Some ==> 0 <= p && dec_w(d, p)->Some_0.1 <= d.len() && dec_w(d, p)->Some_0.1 - p == dec_w(d, p)->Some_0.0.enc@.len() {}
+#[verifier::external_body] pub broadcast proof fn ax_dec_w_roundtrip(pre: Seq<u8>, w: Witness, rest: Seq<u8>)
+    ensures #[trigger] dec_w(pre + w.enc@ + rest, pre.len() as int) == Some((w, (pre.len() + w.enc@.len()) as int)) {}
+impl Writeable for Witness { open spec fn ser(&self) -> Seq<u8> { self.enc@ } #[verifier::external_body] fn write(&self, w: &mut LogWriter) -> (r: Result<(), Error>) { unimplemented!() } }
+impl Readable for Witness { open spec fn dec(d: Seq<u8>, p: int) -> Option<(Witness, int)> { dec_w(d, p) } #[verifier::external_body] fn read(r: &mut ByteReader) -> (res: Result<Witness, DecodeError>) { unimplemented!() } }
+pub open spec fn ws_items(ws: Seq<Witness>) -> Seq<u8> decreases ws.len() { if ws.len() == 0 { Seq::empty() } else { ws_items(ws.drop_last()) + be16(ws.last().enc@.len() as u16) + ws.last().enc@ } }
+pub open spec fn ws_ser(ws: Seq<Witness>) -> Seq<u8> { be16(ws.len() as u16) + ws_items(ws) }
+// one element as the reader takes it: the announced size must be EXACTLY the size of the witness that follows
+pub open spec fn dec_one_w(d: Seq<u8>, p: int) -> Option<(Witness, int)> {
+    match dec_u16(d, p) { None => None, Some((l, p1)) => match dec_w(d, p1) { None => None, Some((w, p2)) => if w.enc@.len() == l as int { Some((w, p2)) } else { None } } }
+}
+pub open spec fn dec_ws_items(d: Seq<u8>, p: int, k: nat) -> Option<(Seq<Witness>, int)> decreases k {
+    if k == 0 { Some((Seq::empty(), p)) } else { match dec_ws_items(d, p, (k - 1) as nat) { None => None, Some((ws, q)) => match dec_one_w(d, q) { None => None, Some((w, q2)) => Some((ws.push(w), q2)) } } }
+}
+pub open spec fn dec_ws(d: Seq<u8>, p: int) -> Option<(Seq<Witness>, int)> { match dec_u16(d, p) { None => None, Some((n, p1)) => dec_ws_items(d, p1, n as nat) } }
+pub proof fn lemma_dec_ws_items_none_stays(d: Seq<u8>, p: int, k: nat, n: nat)
+    requires k <= n, dec_ws_items(d, p, k) is None ensures dec_ws_items(d, p, n) is None decreases n
+{ if n > k { lemma_dec_ws_items_none_stays(d, p, k, (n - 1) as nat); } }
+pub proof fn lemma_dec_ws_items_pos(d: Seq<u8>, p: int, k: nat)
+    requires 0 <= p <= d.len() ensures dec_ws_items(d, p, k) is Some ==> p <= dec_ws_items(d, p, k)->Some_0.1 <= d.len() && dec_ws_items(d, p, k)->Some_0.0.len() == k decreases k
+{ broadcast use ax_dec_w_consumes_its_size; if k > 0 { lemma_dec_ws_items_pos(d, p, (k - 1) as nat); } }
+impl Writeable for Vec<Witness> {
+    open spec fn ser(&self) -> Seq<u8> { ws_ser(self@) }
+//@extract lightning/src/util/ser.rs :: impl Writeable for Vec<Witness> :: fn write
+//@rw R5
+    fn write<W: Writer>(&self, w: &mut W) -> Result<(), io::Error>
+//@with
+    fn write(&self, w: &mut LogWriter) -> Result<(), Error>
+//@rw R6
+    in self {
+//@with
+    in self.iter() {
+//@loop 1 iter=it
+    invariant it.seq().len() == self@.len(), forall|k: int| 0 <= k < self@.len() ==> *it.seq()[k] == self@[k],
+        w.log@ =~= old(w).log@ + be16(self@.len() as u16) + ws_items(self@.take(it.index@ as int)),
+//@at loop_body_start 1
+    proof { assert(self@.take(it.index@ as int + 1).drop_last() =~= self@.take(it.index@ as int)); }
+//@at after_loop 1
+    proof { assert(self@.take(self@.len() as int) =~= self@); }
+//@mutant witness_written_without_its_size
+    (witness.size() as u16).write(w)?;
+//@with
+
+//@end
+}
+//@extract lightning/src/util/ser.rs :: impl Readable for Vec<Witness> :: fn read
+//@rw R5
+    fn read<R: Read>(r: &mut R) -> Result<Self, DecodeError>
+//@with
+    fn read_witnesses(r: &mut ByteReader) -> Result<Vec<Witness>, DecodeError>
+//@rw R12
+    _ in 0..num_witnesses {
+//@with
+    _i in 0..num_witnesses {
+//@ret res
+//@requires
+    old(r).wf(),
+//@ensures P C13 the-witnesses-of-tx-signatures-are-decoded-count-first-and-each-witness-must-fill-exactly-the-size-announced-for-it-so-the-reader-never-takes-a-byte-the-prefix-did-not-announce
+    final(r).data@ == old(r).data@, final(r).wf(),
+    match dec_ws(old(r).data@, old(r).pos@) { Some((ws, np)) => res is Ok && res->Ok_0@ == ws && final(r).pos@ == np, None => res is Err },
+//@loop 1 iter=it
+    invariant r.data@ == old(r).data@, r.wf(), dec_u16(old(r).data@, old(r).pos@) is Some, num_witnesses == dec_u16(old(r).data@, old(r).pos@)->Some_0.0 as usize,
+        it.iter.end == num_witnesses, it.index@ <= num_witnesses, it.iter.start == it.index@,
+        dec_ws_items(r.data@, dec_u16(old(r).data@, old(r).pos@)->Some_0.1, it.index@ as nat) == Some((witnesses@, r.pos@)),
+//@at loop_body_start 1
+    let ghost p1 = dec_u16(old(r).data@, old(r).pos@)->Some_0.1; let ghost k0 = it.index@ as nat;
+    proof { broadcast use ax_dec_w_consumes_its_size; assert(dec_ws_items(r.data@, p1, (k0 + 1) as nat) == (match dec_one_w(r.data@, r.pos@) { None => None::<(Seq<Witness>, int)>, Some((w, q2)) => Some((witnesses@.push(w), q2)) }));
+        if dec_one_w(r.data@, r.pos@) is None { lemma_dec_ws_items_none_stays(r.data@, p1, (k0 + 1) as nat, num_witnesses as nat); } }
+//@mutant witness_longer_than_announced_accepted
+    if witness.size() != witness_len {
+//@with
+    if witness.size() < witness_len {
+//@mutant witness_shorter_than_announced_accepted
+    if witness.size() != witness_len {
+//@with
+    if witness.size() > witness_len {
+//@end
+pub proof fn lemma_witnesses_roundtrip(ws: Seq<Witness>, rest: Seq<u8>)
+    requires ws.len() <= 0xffff, forall|k: int| 0 <= k < ws.len() ==> (#[trigger] ws[k]).enc@.len() <= 0xffff
+    ensures dec_ws(ws_ser(ws) + rest, 0) == Some((ws, ws_ser(ws).len() as int))
+{
+    broadcast use ax_be16;
+    let d = ws_ser(ws) + rest; let n = ws.len() as u16;
+    assert(d =~= Seq::<u8>::empty() + be16(n) + (ws_items(ws) + rest));
+    lemma_slice_of_concat(Seq::<u8>::empty(), be16(n), ws_items(ws) + rest);
+    lemma_items_roundtrip(ws, ws.len() as nat, rest);
+    assert(ws.take(ws.len() as int) =~= ws);
+}
+pub proof fn lemma_items_concat(a: Seq<Witness>, b: Seq<Witness>)
+    ensures ws_items(a + b) =~= ws_items(a) + ws_items(b) decreases b.len()
+{
+    if b.len() == 0 { assert(a + b =~= a); }
+    else { lemma_items_concat(a, b.drop_last()); assert((a + b).drop_last() =~= a + b.drop_last()); assert((a + b).last() == b.last()); }
+}
+pub proof fn lemma_items_roundtrip(ws: Seq<Witness>, k: nat, rest: Seq<u8>)
+    requires k <= ws.len() <= 0xffff, forall|j: int| 0 <= j < ws.len() ==> (#[trigger] ws[j]).enc@.len() <= 0xffff
+    ensures dec_ws_items(ws_ser(ws) + rest, 2, k) == Some((ws.take(k as int), (2 + ws_items(ws.take(k as int)).len()) as int))
+    decreases k
+{
+    broadcast use ax_be16, ax_dec_w_roundtrip;
+    let d = ws_ser(ws) + rest;
+    if k == 0 { assert(ws.take(0) =~= Seq::<Witness>::empty()); }
+    else {
+        lemma_items_roundtrip(ws, (k - 1) as nat, rest);
+        let pre_ws = ws.take(k as int - 1); let x = ws[k as int - 1];
+        assert(ws.take(k as int).drop_last() =~= pre_ws); assert(ws.take(k as int).last() == x);
+        lemma_items_concat(ws.take(k as int), ws.skip(k as int)); assert(ws.take(k as int) + ws.skip(k as int) =~= ws);
+        let tail = ws_items(ws.skip(k as int));
+        let pre = be16(ws.len() as u16) + ws_items(pre_ws);
+        let l = be16(x.enc@.len() as u16);
+        assert(d =~= pre + l + (x.enc@ + tail + rest));
+        lemma_slice_of_concat(pre, l, x.enc@ + tail + rest);
+        assert(d =~= (pre + l) + x.enc@ + (tail + rest));
+        assert(dec_w(d, (pre + l).len() as int) == Some((x, ((pre + l).len() + x.enc@.len()) as int)));
+        assert(ws.take(k as int) =~= pre_ws.push(x));
+    }
 }
 }
 fn main() {}
